@@ -36,14 +36,14 @@ def tasks(tier, seed):
 
 
 def required_witnesses(tier):
-    return ['type-fact', 'size-fact', 'size-variable-shared', 'class-fact-narrow', 'constant-fact', 'alias-same-object', 'concrete-special']
+    return ['type-fact', 'size-fact', 'size-variable-shared', 'class-fact-narrow', 'constant-fact', 'alias-same-object', 'reaching-def-fact', 'concrete-special']
 
 
 def analyses(f):
     """dict of analysis results for the entry function; an analysis that rejects the program is simply absent"""
-    from fpy2.analysis import TypeInfer, ArraySizeInfer, ValueClassInfer, PartialEval, Alias
+    from fpy2.analysis import TypeInfer, ArraySizeInfer, ValueClassInfer, PartialEval, Alias, DefineUse
     out = {}
-    for name, thunk in (('type', lambda: TypeInfer.check(f.ast)), ('size', lambda: ArraySizeInfer.analyze(f.ast)), ('class', lambda: ValueClassInfer.analyze(f.ast)),
+    for name, thunk in (('defuse', lambda: DefineUse.analyze(f.ast)), ('type', lambda: TypeInfer.check(f.ast)), ('size', lambda: ArraySizeInfer.analyze(f.ast)), ('class', lambda: ValueClassInfer.analyze(f.ast)),
                         ('const', lambda: PartialEval.apply(f.ast)), ('alias', lambda: Alias.analyze(f.ast))):
         try:
             out[name] = thunk()
@@ -94,6 +94,53 @@ class Checker:
         self.A = A; self.report = report; self.cover = cover
         self.sizevars = {}
         self.objects = {}
+        self.last_def = {}      # name -> the defining statement that bound it last on this run
+
+    # -- reaching definitions: every read observes a definition listed as reaching it ------------------------------------
+    def on_def(self, stmt):
+        from fpy2.ast import fpyast as F
+
+        def names(t):
+            if isinstance(t, F.NamedId):
+                return [t]
+            if isinstance(t, F.TupleBinding):
+                return [n for x in t for n in names(x)]
+            return []
+        if isinstance(stmt, F.IndexedAssign):
+            self.last_def[stmt.var] = stmt
+        else:
+            for n in names(stmt.target):
+                self.last_def[n] = stmt
+
+    def reaching_sites(self, d, seen=None):
+        """defining sites a (possibly phi) definition stands for"""
+        from fpy2.analysis.reaching_defs import PhiDef
+        du = self.A['defuse']
+        seen = set() if seen is None else seen
+        if id(d) in seen:
+            return []
+        seen.add(id(d))
+        if isinstance(d, PhiDef):
+            return self.reaching_sites(du.defs[d.lhs], seen) + self.reaching_sites(du.defs[d.rhs], seen)
+        return [d.site]
+
+    def defuse_check(self, e, where):
+        from fpy2.ast import fpyast as F
+        du = self.A['defuse']
+        if e not in du.use_to_def:
+            return
+        sites = self.reaching_sites(du.use_to_def[e])
+        if any(isinstance(s, (F.ListComp, F.ContextStmt)) for s in sites):
+            return        # comprehension / `with ... as` targets are not traced
+        last = self.last_def.get(e.name)
+        self.cover('reaching-def-fact')
+        if last is None:
+            ok = any(isinstance(s, (F.Argument, F.FuncDef)) for s in sites)
+            seen = 'the value the function was entered with'
+        else:
+            ok = any(s is last for s in sites)
+            seen = last.format().splitlines()[0][:60]
+        self.report('reaching-def', ok, {'expr': where, 'read observes': seen, 'definitions listed as reaching': [s.format().splitlines()[0][:40] if hasattr(s, 'format') else type(s).__name__ for s in sites][:6]})
 
     def size_check(self, bound, v, where):
         from fpy2.analysis.array_size import ListSize, TupleSize
@@ -120,6 +167,8 @@ class Checker:
     def __call__(self, e, v):
         A = self.A
         where = e.format()[:60]
+        if 'defuse' in A and type(e).__name__ == 'Var':
+            self.defuse_check(e, where)
         if 'type' in A and e in A['type'].by_expr:
             ok = shape_ok(A['type'].by_expr[e], v)
             if ok is not None:
@@ -286,7 +335,7 @@ def describe(tier):
                    'DefineUse / ReachingDefs / ContextUse (through the analyses above)', 'interpret.byte.BytecodeCompiler via a tracing subclass + the compiled program on symbolic arguments'],
         files=[R + f for f in ('type_infer.py', 'array_size.py', 'value_class.py', 'partial_eval.py', 'define_use.py', 'reaching_defs.py', 'alias.py', 'context_use.py')] + ['/repo/fpy2/types.py', '/repo/fpy2/utils/unionfind.py', '/repo/fpy2/interpret/byte.py'],
         bounds=dict(programs=len(_programs(tier)), argument_significand_bits=tv.TIER[tier]['CW'], argument_exponent=tv.EXP0, list_lengths='as listed per program', caller_context='MPSFloatContext(4, -3)'),
-        outside=['programs outside the corpus', 'reaching definitions as such (every read observes a listed definition): not checked directly, only through the analyses built on it and through C07 / C15',
+        outside=['programs outside the corpus', 'reaching definitions of comprehension targets and `with ... as` names (reads of assigned names, loop targets, indexed assignments and arguments are checked)',
                  'escape, purity, liveness (checked through their consumers: C07, C09)', 'NaN / infinite values on symbolic paths (concrete table only)', 'facts about callees (only the entry function is traced)'],
         stubs=['validated operation summaries; int / Fraction proxies; number formatting'],
         assumptions=['a run that raises gives no fact for the operations it did not complete (the analyses\' stated soundness assumption)'],
